@@ -42,63 +42,52 @@ func (i *index) Clear() {
 
 func (i *index) putData(key string, item map[string]*types.Item) error {
 	indexKey, err := i.keySchema.GetKey(i.Table.AttributesDef, item)
-	if err != nil || indexKey == "" {
+	if err != nil {
 		return err
 	}
 
-	_, exists := i.refs[key]
+	// drop the entry of the previous version of the item, if any
+	i.remove(key)
+
+	if indexKey == "" {
+		// secondary indexes are sparse
+		return nil
+	}
 
 	i.refs[key] = indexKey
-
-	if !exists {
-		i.sortedKeys = append(i.sortedKeys, indexKey)
-		sort.Strings(i.sortedKeys)
-	}
+	i.sortedKeys = append(i.sortedKeys, indexKey)
+	sort.Strings(i.sortedKeys)
 
 	return nil
 }
 
 func (i *index) updateData(key string, item, oldItem map[string]*types.Item) error {
-	indexKey, err := i.keySchema.GetKey(i.Table.AttributesDef, item)
-	if err != nil || indexKey == "" {
-		return err
-	}
+	return i.putData(key, item)
+}
 
-	old := i.refs[key]
-	i.refs[key] = indexKey
-
-	if old != indexKey {
-		pos := sort.SearchStrings(i.sortedKeys, old)
-		if pos >= len(i.sortedKeys) {
-			i.sortedKeys = append(i.sortedKeys, indexKey)
-		} else {
-			i.sortedKeys[pos] = indexKey
-		}
-
-		sort.Strings(i.sortedKeys)
-	}
+func (i *index) delete(key string, item map[string]*types.Item) error {
+	i.remove(key)
 
 	return nil
 }
 
-func (i *index) delete(key string, item map[string]*types.Item) error {
-	delete(i.refs, key)
-
-	indexKey, err := i.keySchema.GetKey(i.Table.AttributesDef, item)
-	if err != nil || indexKey == "" {
-		return err
+// remove drops the reference of the primary key and one occurrence of its index key
+func (i *index) remove(key string) {
+	indexKey, exists := i.refs[key]
+	if !exists {
+		return
 	}
 
+	delete(i.refs, key)
+
 	pos := sort.SearchStrings(i.sortedKeys, indexKey)
-	if pos == len(i.sortedKeys) {
-		return err
+	if pos == len(i.sortedKeys) || i.sortedKeys[pos] != indexKey {
+		return
 	}
 
 	copy(i.sortedKeys[pos:], i.sortedKeys[pos+1:])
 	i.sortedKeys[len(i.sortedKeys)-1] = ""
 	i.sortedKeys = i.sortedKeys[:len(i.sortedKeys)-1]
-
-	return nil
 }
 
 func (i *index) lessKey(x, y int) bool {
